@@ -322,7 +322,11 @@ def _judge_vam(sim, h: History, nominal_us: int, trace) -> None:
             if any(0 < b - a < 100 for a, b in zip(ts, ts[1:])):
                 sim.probe("vam-reports-under-100ms")
         # ---- first position report after activation
-        first = next((r for r in act["reports"] if is_position_report(r["tpv"])), None)
+        # (a report without a timestamp cannot be judged by rules stated "on the reports' timestamps")
+        first = next((r for r in act["reports"] if is_position_report(r["tpv"]) and "time" in r["tpv"]), None)
+        earlier_vam = first is not None and any(r.get("vams") for r in act["reports"] if r["t"] < first["t"])
+        if earlier_vam:
+            first = None      # the service already sent its first VAM on an earlier (incomplete) report
         if first is not None and first.get("vbs") not in ("VRU_IDLE", "VRU_PASSIVE"):
             if not first.get("vams"):
                 exc = next((e for e in sim.log[first["pos"]:first.get("done", first["pos"] + 1)] if e["k"] == "exc"), None)
